@@ -14,7 +14,7 @@ RULE = (
     "untwisted wing through the real chain mesh -> VLMGeometry -> ViscousDrag / WaveDrag (part res); non-trivial = distinct ladders with "
     "non-constant values"
 )
-ASSUMPTIONS = ["finite ladders (30 Reynolds numbers, 15 t/c, 12 Mach, 3 CL)", "admissible: chord Reynolds number x k_lam > 1e3", "Korn relation as documented for the crest-critical Mach number", "OpenMDAO/NumPy trusted"]
+ASSUMPTIONS = ["finite ladders (30 Reynolds numbers, 15 t/c, 12 Mach, lift coefficients -0.6 ... 0.6); resolution part also at model scale (0.13 mm chord)", "admissible: chord Reynolds number x k_lam > 1e3", "Korn relation as documented for the crest-critical Mach number", "OpenMDAO/NumPy trusted"]
 BOUND = {"quick": "k_lam in {0,0.05,0.7,1}, sweep in {0,20,40}", "thorough": "k_lam in {0,0.05,0.3,0.7,1}, sweep in {0,20,40,55}"}
 
 RE = np.logspace(4.5, 9, 30)
